@@ -106,6 +106,10 @@ PartialFailing(ev) ==
                            \cup (IF \A i \in DOMAIN r.cells :
                                        SeqSet(r.deps[i]) = DepsOf(L, r.cells[i]) /\ NoDup(r.deps[i])
                                  THEN {} ELSE {"rawcell_dependencies"})
+                           \* the copy's BGNLIB already carries the stamp asked for, its raw cells do not:
+                           \* every BGNSTR is rewritten all the same
+                           \cup (IF "restamped" \in DOMAIN r /\ ~(r.rs_err = 0 /\ r.restamped = Restamp(r.file, r.rs_new))
+                                 THEN {"restamp_of_rawcell_copy"} ELSE {})
                            \cup (IF r.werr = 0 /\ r.proj.unit = ev.full.unit
                                     /\ r.proj.precision = ev.full.precision
                                  THEN {} ELSE {"rawcell_units_or_error"}))
